@@ -889,33 +889,83 @@ fn c20_builder_reuse(ctx: &Ctx, rep: &mut Report) {
             match cfg.imp {
                 Imp::LowNnfa => {
                     let b = cfg.nnfa_builder();
-                    lists.iter().map(|l| b.build(l).map(S::N).map_err(|e| e.to_string())).collect()
+                    lists.iter().enumerate().map(|(k, l)| if k % 2 == 0 { b.build(l) } else { b.build((0u64..u64::MAX).take_while(|&i| (i as usize) < l.len()).map(|i| l[i as usize].clone())) }.map(S::N).map_err(|e| e.to_string())).collect()
                 }
                 Imp::LowCnfa => {
                     let b = cfg.cnfa_builder();
-                    lists.iter().map(|l| b.build(l).map(S::C).map_err(|e| e.to_string())).collect()
+                    lists.iter().enumerate().map(|(k, l)| if k % 2 == 0 { b.build(l) } else { b.build((0u64..u64::MAX).take_while(|&i| (i as usize) < l.len()).map(|i| l[i as usize].clone())) }.map(S::C).map_err(|e| e.to_string())).collect()
                 }
                 Imp::LowDfa => {
                     let b = cfg.dfa_builder();
-                    lists.iter().map(|l| b.build(l).map(S::D).map_err(|e| e.to_string())).collect()
+                    lists.iter().enumerate().map(|(k, l)| if k % 2 == 0 { b.build(l) } else { b.build((0u64..u64::MAX).take_while(|&i| (i as usize) < l.len()).map(|i| l[i as usize].clone())) }.map(S::D).map_err(|e| e.to_string())).collect()
                 }
                 _ => {
+                    // A builder with a HISTORY: every option is first set to some
+                    // other value and then, in a shuffled order, to the wanted
+                    // one - only the last call per option may count, whatever
+                    // the other options were at the time.
+                    let want_kind = match cfg.imp {
+                        Imp::TopNnfa => Some(AhoCorasickKind::NoncontiguousNFA),
+                        Imp::TopCnfa => Some(AhoCorasickKind::ContiguousNFA),
+                        Imp::TopDfa => Some(AhoCorasickKind::DFA),
+                        _ => None,
+                    };
                     let mut b = AhoCorasick::builder();
-                    b.match_kind(to_mk(cfg.kind))
-                        .start_kind(cfg.sk.to_ac())
-                        .ascii_case_insensitive(cfg.ci)
-                        .prefilter(cfg.pre)
-                        .byte_classes(cfg.byte_classes)
-                        .kind(match cfg.imp {
-                            Imp::TopNnfa => Some(AhoCorasickKind::NoncontiguousNFA),
-                            Imp::TopCnfa => Some(AhoCorasickKind::ContiguousNFA),
-                            Imp::TopDfa => Some(AhoCorasickKind::DFA),
-                            _ => None,
-                        });
-                    if let Some(d) = cfg.dense_depth {
-                        b.dense_depth(d);
+                    for pass in 0..2 {
+                        let mut order = [0u8, 1, 2, 3, 4, 5, 6];
+                        rng.shuffle(&mut order);
+                        for what in order {
+                            let first = pass == 0;
+                            match what {
+                                0 => {
+                                    b.match_kind(if first { to_mk(Kind::ALL[rng.below(3)]) } else { to_mk(cfg.kind) });
+                                }
+                                1 => {
+                                    b.start_kind(if first { SK::ALL[rng.below(3)].to_ac() } else { cfg.sk.to_ac() });
+                                }
+                                2 => {
+                                    b.ascii_case_insensitive(if first { !cfg.ci } else { cfg.ci });
+                                }
+                                3 => {
+                                    b.prefilter(if first { !cfg.pre } else { cfg.pre });
+                                }
+                                4 => {
+                                    b.byte_classes(if first { !cfg.byte_classes } else { cfg.byte_classes });
+                                }
+                                5 => {
+                                    b.kind(if first {
+                                        *rng.pick(&[None, Some(AhoCorasickKind::NoncontiguousNFA), Some(AhoCorasickKind::ContiguousNFA), Some(AhoCorasickKind::DFA)])
+                                    } else {
+                                        want_kind
+                                    });
+                                }
+                                _ => {
+                                    // (the two NFA builders have different defaults,
+                                    // which the top-level setter cannot restore: only
+                                    // touched when the configuration sets a depth)
+                                    if let Some(d) = cfg.dense_depth {
+                                        b.dense_depth(if first { rng.below(6) } else { d });
+                                    }
+                                }
+                            }
+                        }
                     }
-                    lists.iter().map(|l| b.build(l).map(S::Top).map_err(|e| e.to_string())).collect()
+                    rep.tally("builders_with_setter_history");
+                    // ... and the collections handed over as iterators of
+                    // different kinds (the upper size hint of the second one is
+                    // astronomically loose, the third yields borrowed slices)
+                    lists
+                        .iter()
+                        .enumerate()
+                        .map(|(k, l)| {
+                            let r = match k % 3 {
+                                0 => b.build(l),
+                                1 => b.build((0u64..u64::MAX).take_while(|&i| (i as usize) < l.len()).map(|i| l[i as usize].clone())),
+                                _ => b.build(l.iter().filter(|_| true).map(|p| &p[..])),
+                            };
+                            r.map(S::Top).map_err(|e| e.to_string())
+                        })
+                        .collect()
                 }
             }
         };
@@ -938,11 +988,23 @@ fn c20_builder_reuse(ctx: &Ctx, rep: &mut Report) {
                 rep.violation("builder_reuse:metadata", format!("build number {} of a reused builder reports other metadata than a fresh builder", k + 1), cj());
                 continue;
             }
-            for _ in 0..3 {
+            if let (S::Top(x), S::Top(y)) = (sh, &fresh) {
+                if (x.kind(), x.start_kind(), x.match_kind()) != (y.kind(), y.start_kind(), y.match_kind()) {
+                    rep.violation(
+                        "builder_reuse:metadata",
+                        format!("a builder with a setter history built kind/start kind/match kind {:?}, a fresh builder with the same final settings {:?}", (x.kind(), x.start_kind(), x.match_kind()), (y.kind(), y.start_kind(), y.match_kind())),
+                        cj(),
+                    );
+                    continue;
+                }
+            }
+            for round in 0..4 {
                 let len = rng.range(0, 120);
                 let hay = crate::meta::decoy_haystack(&mut rng, l, len, cfg.ci);
-                let a = crate::walk::answers(sh, cfg.kind, &hay, (0, hay.len()), false);
-                let b = crate::walk::answers(&fresh, cfg.kind, &hay, (0, hay.len()), false);
+                // (the last round anchored, where the start kind allows it)
+                let anchored = round == 3 && cfg.sk == SK::Both;
+                let a = crate::walk::answers(sh, cfg.kind, &hay, (0, hay.len()), anchored);
+                let b = crate::walk::answers(&fresh, cfg.kind, &hay, (0, hay.len()), anchored);
                 if a.earliest_as_existence() != b.earliest_as_existence() {
                     rep.violation(
                         "builder_reuse:results",
